@@ -164,6 +164,10 @@ def fd_unit(ctx, src):
                rules=[CLOSE, OTHER, RET])
     u.function(src, CC, r'scoped_fd& scoped_fd::operator=\(int other\)', new_header='scoped_fd* scoped_fd_assign_int(scoped_fd* self, int other)',
                rules=[CLOSE, RET])
+    u.function(src, CC, r'void scoped_fd::open\(const char\* filename, int mode, mode_t perm\)',
+               new_header='void scoped_fd_open(scoped_fd* self, const char* filename, int mode, unsigned perm)', ret_zero='',
+               rules=[Rule(r'self->close\(\);', 'scoped_fd_close(self);', count=None, regex=True),
+                      Rule(r'(?<![\w.>])(?:::)?\bopen\(', 'c14_open_raw(', count='+', regex=True)])
     u.function(src, CC, r'scoped_fd::operator int\(\) const', new_header='int scoped_fd_to_int(const scoped_fd* self)')
     u.function(src, CC, r'bool scoped_fd::is_open\(\)', new_header='bool scoped_fd_is_open(scoped_fd* self)')
     return u
@@ -198,14 +202,20 @@ def poll_unit(ctx, src):
               Rule('struct pollfd pfd;', 'c14_pollfd pfd;', count=1),
               Rule(r'auto (\w+) = (upper|lower)_bound\(self->poll_fds\.begin\(\),\s*self->poll_fds\.end\(\),\s*pfd,\s*pred\);',
                    r'size_t \1 = pvec_\2_bound(&self->poll_fds, &pfd);', count=1, regex=True),
-              Rule('self->poll_fds.end()', 'pvec_end(&self->poll_fds)', count=1),
-              Rule(r'\b(insert_it|erase_it)->', r'self->poll_fds.data[\1].', count='+', regex=True)]
+              Rule('self->poll_fds.end()', 'pvec_end(&self->poll_fds)', count=None),
+              Rule(r'\b(insert_it|erase_it)->', r'self->poll_fds.data[\1].', count=None, regex=True),
+              # further std::vector members a variant of the code may use (type-directed; any number of uses)
+              Rule(r'\*(insert_it|erase_it)\b', r'self->poll_fds.data[\1]', count=None, regex=True),
+              Rule(r'self->poll_fds\.back\(\)', 'self->poll_fds.data[self->poll_fds.n - 1]', count=None, regex=True),
+              Rule(r'self->poll_fds\.front\(\)', 'self->poll_fds.data[0]', count=None, regex=True),
+              Rule(r'self->poll_fds\.pop_back\(\);', 'pvec_pop_back(&self->poll_fds);', count=None, regex=True),
+              Rule(r'self->poll_fds\.size\(\)', 'self->poll_fds.n', count=None, regex=True)]
     for nm, sig, hdr in (('add', r'void Poll::add\(int fd, short events\)', 'void Poll_add(Poll* self, int fd, short events)'),
                          ('remove', r'void Poll::remove\(int fd, bool close_fd\)', 'void Poll_remove(Poll* self, int fd, bool close_fd)')):
         u.block(src, CC, sig, LAMBDA, new_header='bool Poll_%s_pred(const c14_pollfd* x, const c14_pollfd* y)' % nm,
                 rules=[Rule(r'\b([xy])\.fd\b', r'\1->fd', count=2, regex=True)])
-        extra = ([Rule('self->poll_fds.insert(insert_it, pfd);', 'pvec_insert(&self->poll_fds, insert_it, &pfd);', count=1)] if nm == 'add' else
-                 [Rule('self->poll_fds.erase(erase_it);', 'pvec_erase(&self->poll_fds, erase_it);', count=1), SYS(1)])
+        extra = ([Rule('self->poll_fds.insert(insert_it, pfd);', 'pvec_insert(&self->poll_fds, insert_it, &pfd);', count=None)] if nm == 'add' else
+                 [Rule('self->poll_fds.erase(erase_it);', 'pvec_erase(&self->poll_fds, erase_it);', count=None), SYS(1)])
         u.function(src, CC, sig, new_header=hdr, rules=common + extra)
     u.function(src, CC, r'bool Poll::empty\(\) const', new_header='bool Poll_empty(const Poll* self)',
                rules=[Rule('self->poll_fds.empty()', 'pvec_empty(&self->poll_fds)', count=1)])
@@ -267,7 +277,7 @@ def plan(ctx):
                          ('move_ctor', 'scoped_fd::scoped_fd(scoped_fd&&)', []), ('close', 'scoped_fd::close', ['c14_close']),
                          ('dtor', 'scoped_fd::~scoped_fd', ['c14_close']), ('move_assign', 'scoped_fd::operator=(scoped_fd&&)', ['c14_close']),
                          ('assign_int', 'scoped_fd::operator=(int)', ['c14_close']), ('to_int', 'scoped_fd::operator int', []),
-                         ('is_open', 'scoped_fd::is_open', [])]:
+                         ('is_open', 'scoped_fd::is_open', []), ('open', 'scoped_fd::open(const char*, int, mode_t)', ['c14_close', 'c14_open_raw'])]:
         groups.append(Group(name='scoped_fd.' + fn, harness=HF, entry='h_' + fn, function=cxx, enforce='scoped_fd_' + fn, replace=rep,
                             clause_note='the descriptor held on entry is closed exactly once (ghost close counters), ownership moves, the moved-from object holds -1',
                             replay=Replay(driver='C14/fs.cc', mode='scoped_fd', extra=[fn], sources=ALL_LIB)))
